@@ -19,6 +19,7 @@ package main
 //   gws      - | GW;GW..   GW = ns/name@class!L|L..   (no listeners: `!-`)
 //            L  = name~host~proto~port~kinds~from~sel
 //                 host:  - nil | e "" | literal
+//                 proto: HTTP|HTTPS|TCP|TLS|UDP | e "" (never produced by the API server: the field is required)
 //                 kinds: N allowedRoutes nil | - empty | K+K  with K = <n|g|c|x>:<Kind>
 //                        (group nil | gateway.networking.k8s.io | "" | example.com)
 //                 from:  N namespaces nil | n From nil | S Same | A All | L Selector | X "Bogus"
@@ -447,6 +448,13 @@ func c10BackendRefs(bs []c10BRef) []gatewayv1.BackendRef {
 	return res
 }
 
+func c10Proto(tok string) string {
+	if tok == "e" {
+		return ""
+	}
+	return tok
+}
+
 func (w *c10World) Objects() []client.Object {
 	var objs []client.Object
 	for _, c := range w.Classes {
@@ -485,7 +493,7 @@ func (w *c10World) Objects() []client.Object {
 				Name:          gatewayv1.SectionName(l.Name),
 				Hostname:      c10optStr[gatewayv1.Hostname](l.Host, c10Empty),
 				Port:          gatewayv1.PortNumber(l.Port),
-				Protocol:      gatewayv1.ProtocolType(l.Proto),
+				Protocol:      gatewayv1.ProtocolType(c10Proto(l.Proto)),
 				AllowedRoutes: c10AllowedRoutes(l),
 			})
 		}
@@ -764,13 +772,13 @@ func c10Single(c *ctx, step int) {
 								if kinds == "N" && fi > 0 {
 									continue
 								}
-								for _, proto := range []string{"HTTP", "TCP"} {
+								for _, proto := range []string{"HTTP", "TCP", "e"} {
 									n++
 									if n%step != 0 {
 										continue
 									}
 									port := 80
-									if proto == "TCP" {
+									if proto != "HTTP" {
 										port = 9000
 									}
 									l := c10Listener{"l1", "-", proto, port, kinds, fs[0], fs[1]}
@@ -922,7 +930,7 @@ func c10Random(c *ctx, r *gen.Rng, n int) {
 					fs = [2]string{"A", "N"}
 				}
 				l := c10Listener{Name: fmt.Sprintf("l%d", k+1), Host: gen.Pick(r, []string{"-", "-", "-", "*", "e", "a.local", "*.w.local", "b.local"}),
-					Proto: gen.Pick(r, []string{"HTTP", "HTTP", "TCP", "HTTPS", "TLS", "UDP"}), Port: gen.Pick(r, []int{80, 8080, 9000, 9001}),
+					Proto: gen.Pick(r, []string{"HTTP", "HTTP", "TCP", "TCP", "HTTPS", "TLS", "UDP", "e"}), Port: gen.Pick(r, []int{80, 8080, 9000, 9001}),
 					Kinds: gen.Pick(r, c10KindsDim), From: fs[0], Sel: fs[1]}
 				if r.Chance(2, 3) {
 					l.Kinds = gen.Pick(r, []string{"-", "-", "n:HTTPRoute+n:TCPRoute"})
@@ -1005,8 +1013,13 @@ func c10Corpus(c *ctx) {
 	lines := []string{
 		// documented getting-started shape (API-defaulted allowedRoutes: Same)
 		"w v1 hap:o g:- g/echoserver@hap!echoserver-gw~-~HTTP~80~-~S~N H:g/echoserver@1!-~-~-~echoserver~-!echoserver-from-gateway.local!-^echoserver~8080~- g/echoserver!8080=10.0.0.1:8080",
-		// TCPRoute through an HTTP listener with no kinds (Gateway API: kinds follow the protocol)
+		// TCPRoute through an HTTP listener with no kinds (Gateway API: kinds follow the protocol): attached by the
+		// code as first found (signature tcproute-attached-through-non-tcp-listener), refused since /repo fbb19ce
 		"w v1 hap:o g:- g/gw1@hap!l1~-~HTTP~80~-~S~N T:g/r1@1!-~-~-~gw1~-!-!-^s1~8080~- g/s1!8080=10.0.0.1:8080",
+		// ... an empty listener protocol (not producible through the API server) puts no bound
+		"w v1 hap:o g:- g/gw1@hap!l1~-~e~9000~-~S~N T:g/r1@1!-~-~-~gw1~-!-!-^s1~8080~- g/s1!8080=10.0.0.1:8080",
+		// ... same world, HTTPS and UDP listeners refuse, TLS accepts
+		"w v1 hap:o g:- g/gw1@hap!l1~-~HTTPS~443~-~S~N|l2~-~UDP~53~-~S~N|l3~-~TLS~8443~-~S~N T:g/r1@1!-~-~-~gw1~-!-!-^s1~8080~- g/s1!8080=10.0.0.1:8080",
 		// foreign class
 		"w v1 hap:o,oth:f g:- g/gw1@oth!l1~-~HTTP~80~-~A~N H:g/r1@1!-~-~-~gw1~-!-!-^s1~8080~- g/s1!8080=10.0.0.1:8080",
 		// two backendRefs resolving to the same ip:port: two servers, unique names
